@@ -96,6 +96,12 @@ func (a *arrayObject) _setLengthInt(l uint32, throw bool) bool {
 		}
 	}
 	if l <= uint32(len(a.values)) {
+		// keep the count of present elements exact: objCount == length is what marks an array as free of holes
+		for _, v := range a.values[l:] {
+			if v != nil {
+				a.objCount--
+			}
+		}
 		if l >= 16 && l < uint32(cap(a.values))>>2 {
 			ar := make([]Value, l)
 			copy(ar, a.values)
